@@ -23,7 +23,7 @@ import sys
 import time
 
 sys.path.insert(0, os.path.dirname(os.path.abspath(__file__)))
-from vlib import env, tlc, pool, datasets, vcflines, vcfctx
+from vlib import env, tlc, pool, isolate, datasets, vcflines, vcfctx
 from vlib.report import Check
 
 SPEC = os.path.join(env.SPEC, "VcfRecord")
@@ -35,6 +35,9 @@ SHAPE_BY_NAME = {
     "L5_refabs1": "refabsent1", "L6_partial": "normal", "L7_empty": "nosnv", "L8_multi": "normal",
     "L1_zeroalt": "zeroalt", "L1_af0": "af0", "L1_maskref": "refabsent", "L2_noa": "noa", "L8_rare": "normal",
     "L1_zerolast": "zerolast", "L8_zerolast2": "zerolast", "L8_zeroends": "zerolast", "L1_zeroref": "zeroref", "L6_onlyref": "onlyref",
+    # edge plan: loci at contig ends, 1-bp locus, SNVs on the first / last base, adjacent SNVs, soft-masked reference
+    "E1_start": "normal", "E2_single": "normal", "E3_adjacent": "normal", "E4_refabs": "refabsent", "E5_end": "normal",
+    "E6_nosnv_start": "nosnv", "E1_start_zerolast": "zerolast", "E1_start_af0": "af0",
 }
 
 
@@ -44,13 +47,16 @@ def build_datasets(ck):
     shutil.rmtree(root, ignore_errors=True)
     os.makedirs(root)
     out = {}
-    variants = [("G4", (4, 4, 4)), ("Gmix", (2, 4, 6))]
+    variants = [("G4", (4, 4, 4)), ("Gmix", (2, 4, 6)), ("Gedge", (2, 4, 6))]
     if ck.tier == "thorough":
         variants += [("Godd", (1, 3, 2)), ("G2", (2, 2, 2)), ("G4b", (4, 4, 4)), ("Gmixb", (2, 4, 6))]
     for i, (name, pl) in enumerate(variants):
         d = os.path.join(root, name)
+        edge = name == "Gedge"
         man = datasets.make_population(d, seed=ck.seed * 101 + i, ploidies=pl, name=name,
-                                       deep_sample=1 if name in ("G4b",) else None)
+                                       deep_sample=1 if name in ("G4b",) else None,
+                                       plan=datasets.EDGE_PLAN if edge else None,
+                                       lower=[("CTG1", 95, 130), ("CTG2", 0, 10)] if edge else ())
         man["hap_vcf"] = os.path.join(d, "haps.vcf")
         man["hap_records"] = datasets.write_haplotype_vcf(man, man["hap_vcf"], seed=ck.seed)
         names = [s["name"] for s in man["samples"]]
@@ -174,6 +180,27 @@ def plan_runs(ck, configs, dsets):
             r.update({"argv": argv, "ref": man["ref"], "ploidy": ploidy})
             runs.append(r)
             n += 1
+    # assemble --region (with and without --region-id: ID '.')
+    for k in range(2):
+        man = dsets[names[k % len(names)]]
+        l = man["loci"][0]
+        argv = ["--bam"] + [s["bam"] for s in man["samples"]] + ["--ploidy", man["ploidy_file"], "--reference", man["ref"],
+                "--mcmc-steps", "300", "--mcmc-burn", "100", "--mcmc-seed", "4", "--variants", man["snv_vcf"],
+                "--region", "%s:%d-%d" % (l["contig"], l["start"], l["stop"])] + (["--region-id", "REGION_A"] if k == 0 else [])
+        rep = [["AFP", "GP"], ["GL", "ACP", "SNVDP"]][k]
+        runs.append({"prog": "assemble", "report": rep, "ds": man["name"], "id": "g%04d" % k, "pool": None,
+                     "snv_vcf": man["snv_vcf"], "ref": man["ref"], "ploidy": {s["name"]: s["ploidy"] for s in man["samples"]},
+                     "argv": argv + report_args(rep)})
+    # assemble with a reporting threshold nothing can reach (-> no ALT, REFMASKED, NOA, every allele unknown)
+    for k in range(1 if ck.tier == "quick" else 3):
+        man = dsets[names[k % len(names)]]
+        argv = ["--bam"] + [s["bam"] for s in man["samples"]] + ["--ploidy", man["ploidy_file"], "--reference", man["ref"],
+                "--mcmc-steps", "300", "--mcmc-burn", "100", "--mcmc-seed", "3", "--targets", man["bed_run"], "--variants", man["snv_vcf"],
+                "--haplotype-posterior-threshold", "1.0"]
+        rep = [["AFP", "GP"], ["ACP", "AOP", "GL"], ["SNVDP", "AOPSUM"]][k]
+        runs.append({"prog": "assemble", "report": rep, "ds": man["name"], "id": "t%04d" % k, "pool": None, "threshold1": True,
+                     "snv_vcf": man["snv_vcf"], "ref": man["ref"], "ploidy": {s["name"]: s["ploidy"] for s in man["samples"]},
+                     "argv": argv + report_args(rep)})
     # the project-wide ploidy file (lists more samples than are analysed)
     for k, prog in enumerate(["assemble", "call-exact", "call"] if ck.tier == "quick" else ["assemble", "call-exact", "call", "assemble", "call"]):
         man = dsets[names[k % len(names)]]
@@ -245,6 +272,8 @@ def observed_shape(rec, run):
     # call programs: the hand-made specials depend on the prior / filter options of the run
     if nm == "af0":
         return "noa" if run.get("filter") else ("af0" if run.get("prior") else "normal")
+    if nm == "onlyref" and run.get("filter"):
+        return "nosnv"      # every ALT filtered away: a record without ALT / SNVs
     if nm in ("zeroalt", "zerolast", "onlyref"):
         return "normal" if run.get("filter") or not run.get("prior") else nm
     if nm == "zeroref":     # a zero prior on the reference = masked reference (with the filter: REFMASKED flag set)
@@ -256,7 +285,7 @@ def compare_with_model(ck, run, hdr, recs, model_by_key, stats):
     """spec -> code: the observed header keys / FILTER / REFMASKED / missingness against the model's record."""
     key = (run["prog"], tuple(sorted(run["report"])))
     models = model_by_key.get(key)
-    if not models:
+    if not models or run.get("pipeline"):
         return
     stats["runs_matched"] += 1
     m0 = models[0]
@@ -397,9 +426,51 @@ def validate_chunks(ck, dump, label, chunk=700):
     return rejects
 
 
+def arg_after(argv, flag):
+    return argv[argv.index(flag) + 1] if flag in argv else None
+
+
+def replay(ck, path):
+    """./check C07 --replay work/C07/violation-N.json : re-run exactly that program run (the generated dataset of the
+    last run must still be in work/C07/data) and give every emitted line a verdict."""
+    with open(path) as fh:
+        d = json.load(fh)["detail"]
+    argv, prog = d["argv"], d["prog"]
+    out = isolate.map_runs("impl.c07", [{"op": "run", "prog": prog, "argv": argv, "pysam": True}])[0]
+    pl = arg_after(argv, "--ploidy") or "2"
+    ploidy = int(pl) if pl.isdigit() else vcfctx.read_value_map(pl)
+    pool_arg = arg_after(argv, "--sample-pool")
+    if pool_arg and not os.path.isfile(pool_arg) and isinstance(ploidy, int):
+        ploidy = {pool_arg: ploidy}
+    ref = arg_after(argv, "--reference")
+    run = {"prog": prog, "id": d.get("run", "replay"), "ploidy": ploidy, "report": [], "argv": argv,
+           "snv_vcf": arg_after(argv, "--variants"), "hap_vcf": arg_after(argv, "--haplotypes")}
+    if ref is None:
+        ck.machinery_failure("replay needs --reference in the recorded argv")
+    run["ref"] = ref
+    if out["error"] is not None:
+        ck.violation("impl-error", {"run": run["id"], "prog": prog, "argv": argv, "chain": out["error"]["chain"]},
+                     key={"site": out["error"].get("site"), "exc": out["error"].get("exc"), "prog": prog, "replay": True})
+    tb = vcfctx.TraceBuilder()
+    n, problems = tb.add_output(out["stdout"], run, out["captured"], label="replay")
+    rejects = validate_chunks(ck, tb.dump(), "replay") if n else {}
+    for i in range(n):
+        v = rejects.get(i)
+        print("line %d %s: %s" % (i + 1, tb.lines[i]["rec"]["id"], "ok" if v is None else "REJECT %s %s" % (v["clause"], sorted(v.get("fields", [])))))
+        if v is not None:
+            for c in v["clause"]:
+                ck.violation("trace-reject", {"run": run["id"], "prog": prog, "argv": argv, "clause": c, "line": tb.meta[i]["text"][:1500]},
+                             key={"site": prog, "clause": c, "replay": True})
+    # a replay is a diagnostic: it does not rewrite evidence/C07.json
+    print("REPLAY property=C07 lines=%d violations=%d" % (n, len(ck.violations)), flush=True)
+    sys.exit(1 if ck.violations else 0)
+
+
 def main():
     ck = Check("C07")
     tier = ck.tier
+    if os.environ.get("VERIF_REPLAY"):
+        replay(ck, os.environ["VERIF_REPLAY"])
     ck.rule = (
         "TLC enumerates program x --report set x dataset shape x ploidy vector x genotype pattern (Scenario.tla) and checks "
         "WellFormed on the record the documented pipeline produces; every (program, --report set) it enumerates is run for real "
@@ -433,20 +504,49 @@ def main():
     dsets = build_datasets(ck)
     runs = plan_runs(ck, configs, dsets) + repo_runs(ck)
     ck.note("program_runs", len(runs))
-    per = 4 if tier == "quick" else 10
-    tasks = [{"op": "runs", "runs": [{"prog": r["prog"], "argv": r["argv"], "pysam": True} for r in runs[i:i + per]]}
-             for i in range(0, len(runs), per)]
     t0 = time.time()
     try:
-        res = pool.map_tasks("impl.c07", tasks, mode="jit")
+        results = isolate.map_runs("impl.c07", [{"op": "run", "prog": r["prog"], "argv": r["argv"], "pysam": True} for r in runs])
     except pool.WorkerError as e:
         ck.machinery_failure("worker failure: %s" % e)
     ck.note("program_runs_wall_s", round(time.time() - t0, 1))
-    results = []
-    for t, rr in zip(tasks, res):
-        if not rr["ok"]:
-            ck.machinery_failure("worker task failed: %s\n%s" % (rr["error"], rr.get("tb", "")))
-        results.extend(rr["result"])
+    for run, out in zip(runs, results):
+        if out.get("harness_error"):
+            ck.machinery_failure("worker task failed for run %s: %s\n%s" % (run["id"], out["error"]["chain"], out["error"]["tb"]))
+    # second wave (pipeline): an assemble output with INFO/AFP of each generated dataset becomes the --haplotypes input
+    wave2 = []
+    for name in sorted(dsets):
+        man = dsets[name]
+        src = next((o for r, o in zip(runs, results)
+                    if r["prog"] == "assemble" and r["ds"] == name and o["error"] is None and not r.get("pool")
+                    and {"AFP", "INFO/AFP"} & set(r["report"]) and not r.get("ploidy_superset") and r["id"].startswith("r")), None)
+        if src is None:
+            continue
+        path = os.path.join(man["dir"], "pipeline.vcf")
+        with open(path, "w") as fh:
+            fh.write(src["stdout"])
+        pl = {s["name"]: s["ploidy"] for s in man["samples"]}
+        bams = [s["bam"] for s in man["samples"]]
+        for k, (prog, rep, extra) in enumerate([
+            ("call", ["AFP", "GP", "AFPRIOR"], ["--prior-frequencies", "AFP"]),
+            ("call-exact", ["ACP", "GL", "AOP"], ["--prior-frequencies", "AFP", "--filter-input-haplotypes", "AFP>=0.1"]),
+            ("call-pedigree", ["AFP", "AOPSUM", "GP"], ["--sample-parents", man["pedigree"], "--gamete-ploidy", man["tau_file"], "--gamete-error", "0.1"]),
+        ]):
+            argv = ["--bam"] + bams + ["--ploidy", man["ploidy_file"], "--haplotypes", path] + extra
+            if prog != "call-exact":
+                argv += ["--mcmc-steps", "300", "--mcmc-burn", "100", "--mcmc-seed", "21"]
+            wave2.append({"prog": prog, "report": rep, "ds": name, "id": "w%s%d" % (name, k), "pool": None, "hap_vcf": path, "ref": man["ref"],
+                          "ploidy": pl, "prior": "--prior-frequencies" in extra, "filter": "--filter-input-haplotypes" in extra,
+                          "pipeline": True, "argv": argv + report_args(rep)})
+    if wave2:
+        try:
+            results += isolate.map_runs("impl.c07", [{"op": "run", "prog": r["prog"], "argv": r["argv"], "pysam": True} for r in wave2], warm_first=False)
+        except pool.WorkerError as e:
+            ck.machinery_failure("worker failure: %s" % e)
+        runs += wave2
+    ck.note("pipeline_runs", len(wave2))
+    ck.note("program_runs", len(runs))
+    ck.note("program_runs_wall_s", round(time.time() - t0, 1))
 
     # ---- 3. build the trace: every emitted line ------------------------------------------------
     tb = vcfctx.TraceBuilder()
